@@ -355,11 +355,27 @@ func derefBase(ins ssa.Instruction) ssa.Value {
 func c16Parsers(c *eng.Ctx) {
 	type use struct{ parser, field string }
 	parsers := []string{"net/url.Parse", "crypto/tls.X509KeyPair", "k8s.io/client-go/util/cert.ParseCertsPEM"}
-	fieldOf := func(v ssa.Value) string {
+	var fieldOfD func(v ssa.Value, depth int) string
+	fieldOf := func(v ssa.Value) string { return fieldOfD(v, 3) }
+	fieldOfD = func(v ssa.Value, depth int) string {
 		// "Type.field" of the API object field the argument is read from
 		cur := convOf(v)
 		for i := 0; i < 6; i++ {
 			switch n := cur.(type) {
+			case *ssa.Parameter:
+				// the parser is applied in a helper: the field is what every caller hands in
+				if depth <= 0 {
+					return ""
+				}
+				f := ""
+				for k, a := range eng.UpArgs(n) {
+					fa := fieldOfD(a, depth-1)
+					if fa == "" || (k > 0 && fa != f) {
+						return ""
+					}
+					f = fa
+				}
+				return f
 			case *ssa.UnOp:
 				if n.Op != token.MUL {
 					return ""
